@@ -184,6 +184,8 @@ type c16Real struct {
 	started []bool
 	ret     []bool
 	res     []string
+	ptr     []*Trace // what Await handed out: must keep reading the same for as long as the waiter holds it
+	ptrName []string
 }
 
 func c16NewReal(nw int) *c16Real {
@@ -195,6 +197,8 @@ func c16NewReal(nw int) *c16Real {
 		x.started = append(x.started, false)
 		x.ret = append(x.ret, false)
 		x.res = append(x.res, "")
+		x.ptr = append(x.ptr, nil)
+		x.ptrName = append(x.ptrName, "")
 	}
 	return x
 }
@@ -228,6 +232,9 @@ func (x *c16Real) do(e c16Ev) {
 			tr, err := x.tr.Await(x.ctx[w], e.Name)
 			x.mu.Lock()
 			x.ret[w], x.res[w] = true, c16Classify(tr, err)
+			if err == nil && tr != nil {
+				x.ptr[w], x.ptrName[w] = tr, tr.TestName
+			}
 			x.mu.Unlock()
 		}()
 	case "cancel":
@@ -239,6 +246,13 @@ func (x *c16Real) do(e c16Ev) {
 func c16Compare(ref *c16Ref, real *c16Real, hist []c16Ev) (key, detail string) {
 	real.mu.Lock()
 	defer real.mu.Unlock()
+	for i := range real.ptr {
+		if real.ret[i] && real.ptr[i] != nil {
+			if now := c16Classify(real.ptr[i], nil); now != real.res[i] || real.ptr[i].TestName != real.ptrName[i] {
+				return "delivered-trace-changed-later", fmt.Sprintf("waiter %d obtained %q; the trace it holds now reads %q (test name %q); history %v", i, real.res[i], now, real.ptr[i].TestName, hist)
+			}
+		}
+	}
 	for i, w := range ref.waiters {
 		ret, res := real.ret[i], real.res[i]
 		switch {
@@ -340,7 +354,7 @@ func c16Enabled(ref *c16Ref, names []string, depth int) []c16Ev {
 func TestVerifC16Orders(t *testing.T) {
 	r := rep.New("c16-orders")
 	defer r.Write()
-	r.Rule = "breadth-first search over operation orders (Init/Complete/Clear on the names, Await/Cancel of 2 waiters) of the real Tracer; a state is the event history that reaches it, replayed on a fresh Tracer in a synctest bubble and compared with a sequential reference model after every event; histories are merged by the canonical reference state; non-trivial = distinct canonical state x event"
+	r.Rule = "breadth-first search over operation orders (Init/Complete/Clear on the names, Await/Cancel of 2 waiters) of the real Tracer; a state is the event history that reaches it, replayed on a fresh Tracer in a synctest bubble and compared with a sequential reference model after every event (a trace a waiter obtained must also keep reading the same afterwards); histories are merged by the canonical reference state; then EVERY history over 2 names up to depth 6 (7 thorough) without merging, because hidden implementation state need not be a function of the reference state; non-trivial = distinct canonical state x event"
 	names := []string{"x", "y"}
 	maxDepth := 6
 	if rep.Thorough() {
@@ -428,6 +442,56 @@ func TestVerifC16Orders(t *testing.T) {
 			depthDone = depth + 1
 		}
 	}
+	// Second pass without merging: the canonical reference state is a sound key only for an
+	// implementation whose hidden state is a function of it; a slot pool, a cache or any other
+	// history-dependent state is not. Every history (not only one representative per reference
+	// state) up to the depth below is replayed and compared after every event.
+	flatDepth := 6
+	if rep.Thorough() {
+		flatDepth = 7
+		names = []string{"x", "y"}
+	}
+	var flat int64
+	var walk func(hist []c16Ev, idx *int64)
+	var idx int64
+	stop := false
+	walk = func(hist []c16Ev, idx *int64) {
+		if stop {
+			return
+		}
+		ref := c16NewRef(2)
+		for i, e := range hist {
+			ref.apply(e, i)
+		}
+		for _, e := range c16Enabled(ref, names, len(hist)) {
+			h := append(append([]c16Ev{}, hist...), e)
+			if len(h) == 2 {
+				*idx++
+				if !r.Mine(*idx) {
+					continue
+				}
+			}
+			if len(h) == flatDepth {
+				if !deadline.IsZero() && time.Now().After(deadline) {
+					r.NotExhaustive("budget reached in the unmerged pass")
+					stop = true
+					return
+				}
+				// the replay compares after every event, so only complete histories need replaying
+				_, key, detail := c16Replay(t, h, 2)
+				flat++
+				r.Eval(1)
+				if key != "" {
+					r.Violate(key, detail, map[string]any{"history": h})
+				}
+				continue
+			}
+			walk(h, idx)
+		}
+	}
+	walk(nil, &idx)
+	r.Count("histories_replayed_without_merging", flat)
+	r.Extra["unmerged_depth"] = flatDepth
 	r.Count("states", states)
 	r.Count("transitions", transitions)
 	r.Count("executions", transitions)
